@@ -223,13 +223,17 @@ def text_channel(timeout_ms, maxlen=8):
     # 3. labels of distinct routines are distinct and are valid label tokens
     fmt = _label_format_ast()
     s1, s2_ = z3.String("san1"), z3.String("san2")
-    i1, i2 = z3.Int("idx1"), z3.Int("idx2")
-    l1 = strs.Translator({"safer_name": s1, "index": i1}).expr(fmt)
-    l2 = strs.Translator({"safer_name": s2_, "index": i2}).expr(fmt)
+    # the index is rendered by "{}".format(int): its canonical decimal text.  Two different indices have different
+    # canonical texts (CPython's str(int), trusted), so the rendering is modelled as a string in 0|[1-9][0-9]* and
+    # "different indices" as "different texts" - z3's int.to.str makes these queries time out at larger bounds
+    d1, d2 = z3.String("idx1"), z3.String("idx2")
+    dec = z3.Union(z3.Re("0"), z3.Concat(z3.Range("1", "9"), z3.Star(z3.Range("0", "9"))))
+    l1 = strs.Translator({"safer_name": s1, "index": d1}).expr(fmt)
+    l2 = strs.Translator({"safer_name": s2_, "index": d2}).expr(fmt)
     base = [z3.InRe(s1, z3.Star(alnum_)), z3.InRe(s2_, z3.Star(alnum_)), z3.Length(s1) <= maxlen, z3.Length(s2_) <= maxlen,
-            i1 >= 0, i2 >= 0, i1 < 300, i2 < 300, i1 != i2]
-    solve("labels-distinct", base + [l1 == l2], [s1, s2_, i1, i2], "pyteal/compiler/subroutines.py:resolveSubroutines (label format, sanitiser %s)" % pat)
-    solve("label-is-a-token", base + [z3.Not(z3.InRe(l1, labre))], [s1, i1], "pyteal/compiler/subroutines.py:resolveSubroutines")
+            z3.InRe(d1, dec), z3.InRe(d2, dec), z3.Length(d1) <= 4, z3.Length(d2) <= 4, d1 != d2]
+    solve("labels-distinct", base + [l1 == l2], [s1, s2_, d1, d2], "pyteal/compiler/subroutines.py:resolveSubroutines (label format, sanitiser %s)" % pat)
+    solve("label-is-a-token", base + [z3.Not(z3.InRe(l1, labre))], [s1, d1], "pyteal/compiler/subroutines.py:resolveSubroutines")
     return obs, wit
 
 
